@@ -168,6 +168,28 @@ def _run_case_inner(ctx, case):
             if any(r != per_wallet[0] for r in per_wallet[1:]):
                 bad('address.disagree', 'cosigner wallets hand out different keys for the same requests: %r' %
                     per_wallet)
+        # ---- (1c) keys requested by explicit [change, index] path: the key lies at that path in every wallet -------
+        for chg, idx in case.get('explicit_paths') or ():
+            flags.add('explicit_paths')
+            want_a, want_s = _ref_script(case, chg, idx)
+            ref_scripts[want_a] = want_s
+            got = []
+            for i, w in [(i_, w_) for i_, w_ in enumerate(wallets) if w_ is not None]:
+                kw = {'cosigner_id': 0} if wt == 'legacy' else {}
+                try:
+                    k = w.key_for_path([chg, idx], **kw)
+                    got.append((k.address, k.path))
+                except Exception as e:
+                    bad('key_for_path.raises', 'wallet %d key_for_path([%d, %d]) raised %r' % (i, chg, idx, e))
+                if not k.path.endswith('/%d/%d' % (chg, idx)):
+                    bad('key_for_path.path', 'wallet %d: key_for_path([%d, %d]) returned the key at %s' %
+                        (i, chg, idx, k.path))
+            if len(set(a for a, _ in got)) != 1:
+                bad('address.disagree', 'cosigner wallets derive different addresses for key_for_path([%d, %d]): %r' %
+                    (chg, idx, got))
+            if got[0][0] != want_a:
+                bad('address.reference', 'key_for_path([%d, %d]): wallets derive %s (%s), reference gives %s' %
+                    (chg, idx, got[0][0], got[0][1], want_a))
         # ---- (2) ceremony -------------------------------------------------------------------------------------
         creator = part[case['creator'] % len(part)]
         wa = wallets[creator]
@@ -590,7 +612,7 @@ def _strategy(ctx):
                 'post_edit': draw(st.sampled_from([None, 'sign_replace', 'sign_and_update', 'sign'])),
                 'post_resign': draw(st.booleans()),
                 'special_r': draw(st.sampled_from([None, None, 0, 1, 2, 3, 4, 6, 8, 10])),
-                'bulk': draw(st.sampled_from([0, 0, 2, 3])), 'bulk_change': draw(st.sampled_from([0, 0, 1])), 'creator': draw(st.integers(0, n - 1)), 'handoffs': handoffs,
+                'bulk': draw(st.sampled_from([0, 0, 2, 3])), 'explicit_paths': draw(st.sampled_from([[], [], [[1, 4]], [[0, 2], [1, 1]], [[1, 4], [0, 3]]])), 'bulk_change': draw(st.sampled_from([0, 0, 1])), 'creator': draw(st.integers(0, n - 1)), 'handoffs': handoffs,
                 'rng': draw(st.integers(0, 2 ** 31))}
     return cases()
 
